@@ -126,7 +126,8 @@ RuleC05(o, q, r) ==
                  ELSE /\ IsOrder(r.upd)
                       /\ r.upd.vis <= o.vis                       \* tranche no larger than the exhausted one
                       /\ r.upd.vis = r.hr                         \* taken from hidden quantity
-                      /\ r.upd.vis = Min2(o.hid, o.vis)
+                      \* (the pinned code shows exactly Min2(o.hid, o.vis): that is MatchAgainst, the model of
+                      \*  the code; the property only bounds the tranche)
             ELSE IsOrder(r.upd) /\ r.upd.vis = nv /\ r.hr = 0
        [] o.kind = "Reserve" ->
             LET wants == (exhausted \/ nv < thr1) /\ o.auto /\ o.hid > 0
